@@ -73,15 +73,7 @@ Definition w_ruby_structure : vfile :=
 Theorem C11_ruby_structure_refuted : contradicts w_ruby_structure 2 7.
 Proof. witness. Qed.
 
-(* a cue without payload: UnboundLocalError *)
-Definition w_cue_without_payload : vfile :=
-  mkFile [] [BCue (mkCue None (mkTs None 0 1 0) (mkTs None 0 2 0) [] [])].
-Theorem C11_cue_without_payload_refuted : contradicts w_cue_without_payload 2 8.
-Proof. witness. Qed.
-
-(* robustness outside the grammar: the empty file and <rt> outside <ruby> raise AttributeError *)
-Theorem C11_empty_file_refuted : to_model [] = Raised ExAttribute.
-Proof. vm_compute. reflexivity. Qed.
+(* robustness outside the grammar: <rt> outside <ruby> raises AttributeError *)
 Theorem C11_rt_outside_ruby_refuted :
   to_model [87;69;66;86;84;84;10;10;48;48;58;48;49;46;48;48;48;32;45;45;62;32;48;48;58;48;50;46;48;48;48;10;60;114;116;62;120;10]
   = Raised ExAttribute.
